@@ -180,3 +180,34 @@ func HarnessC06Pages() {
 	vAssert(ferr == nil, "page-renders")
 	vAssert(vEqStr(out, want[i]), "each-page-shows-its-own-inserts-only")
 }
+
+
+// HarnessC06InPlace: an insert body is rendered at the place of its reserve: an assignment in it is seen by what the
+// layout prints after the reserve, also from one loop pass to the next.
+func HarnessC06InPlace() {
+	vfsReset()
+	x := string([]byte{vByte("x")})
+	var layout, page, want string
+	switch vChoice("shape", 3) {
+	case 0:
+		layout = "{{ h = \"L\" }}[@reserve(\"r\")]{{ h }}"
+		page = "@use(\"~main\")@insert(\"r\"){{ h = x }}b@end"
+		want = "[b]" + x
+	case 1:
+		layout = "{{ t = \"\" }}@each(p in [\"1\", \"2\", \"3\"])<@reserve(\"r\")>@end"
+		page = "@use(\"~main\")@insert(\"r\"){{ t = t + p }}{{ t }}@end"
+		want = "<1><12><123>"
+	default:
+		layout = "{{ h = \"L\" }}[@reserve(\"r\")]{{ h }}"
+		page = "@use(\"~main\")@insert(\"r\", x)"
+		want = "[" + x + "]L"
+	}
+	vfsWriteFile("templates/layouts/main.tw", layout)
+	vfsWriteFile("templates/page.tw", page)
+	tpl, err := newTemplate("templates", ".tw")
+	vCover("loaded")
+	vAssert(err == nil && tpl != nil, "valid-layout-and-page-load")
+	out, ferr := tpl.String("page", map[string]any{"x": x})
+	vAssert(ferr == nil, "page-renders")
+	vAssert(vEqStr(out, want), "insert-body-is-rendered-at-the-place-of-its-reserve")
+}
